@@ -740,6 +740,47 @@ def run_resume_corpus(ctx):
                 try:
                     c = g.clients[0]
                     cap = rt.wait(c.upload(upload.Data(data, convergence=b"c04" + b"\x00" * 13))).get_uri()
+                    # --- readers driven from OUTSIDE write(): (d) one of several readers waiting for the same segment is
+                    #     cancelled while the request is outstanding -- the others must still get their slices;
+                    #     (e) a reader is paused while its request is in flight, the segment arrives during the pause, it
+                    #     is resumed when the system has gone quiet -- it must complete with exactly its slice
+                    from twisted.python.failure import Failure
+                    for shape, ranges, schedule in (
+                            ("cancel-sibling-at-0", [(0, None), (3, 50), (0, 40)], [(0, 0, "stop")]),
+                            ("cancel-sibling-at-4", [(seg + 1, 60), (seg + 2, None)], [(4, 0, "stop")]),
+                            ("cancel-two-of-three", [(0, None), (1, None), (2, seg + 9)], [(0, 0, "stop"), (2, 1, "stop")]),
+                            ("pause-in-flight-at-0", [(0, None)], [(0, 0, "pause"), (10 ** 5, 0, "resume")]),
+                            ("pause-in-flight-at-3", [(seg + 5, 3 * seg), (0, 20)], [(3, 0, "pause"), (10 ** 5, 0, "resume")]),
+                            ("pause-twice", [(5, None), (7, None)], [(0, 0, "pause"), (40, 0, "resume"), (41, 0, "pause"),
+                                                                       (10 ** 5, 0, "resume"), (2, 1, "pause"), (10 ** 5, 1, "resume")])):
+                        node = fresh_node(c, cap)
+                        case = {"kind": "outside-corpus", "file": [size, k, n, max_seg], "policy": policy, "seed": seed,
+                                "shape": shape, "ranges": [list(r) for r in ranges], "schedule": [list(a) for a in schedule]}
+                        cons = [PassiveConsumer() for _ in ranges]
+                        for j, (off, sz) in enumerate(ranges):
+                            d = node.read(cons[j], off, sz)
+                            d.addBoth(lambda r, j=j: setattr(cons[j], "result", r if r is not None else True))
+                        drive(rt, cons, list(schedule))
+                        for j, (off, sz) in enumerate(ranges):
+                            want = data[off:] if sz is None else data[off:off + sz]
+                            got = b"".join(cons[j].chunks)
+                            r = cons[j].result
+                            if cons[j].stopped:
+                                check(dict(case, reader=j), "a stopped reader received bytes that are not a prefix of its slice",
+                                      "corpus-stopped-not-prefix", got, want, exact=False)
+                            elif r is None:
+                                ctx.violation("a reader never finished after another reader was cancelled / after being paused "
+                                              "and resumed from outside write()", dict(case, reader=j), "corpus-live-hang:" + shape.split("-")[0],
+                                              {"got_len": len(got), "want_len": len(want)})
+                            elif isinstance(r, Failure):
+                                ctx.violation("a live reader failed after a sibling's cancel / its own outside pause-resume",
+                                              dict(case, reader=j), "corpus-live-failed:%s:%s" % (shape.split("-")[0], r.type.__name__),
+                                              repr(r.value)[:200])
+                            else:
+                                check(dict(case, reader=j), "a live reader did not receive exactly its slice", "corpus-live-wrong-slice",
+                                      got, want)
+                        ctx.case(("OC", fi, policy, seed, shape))
+                        ctx.count("corpus:" + shape)
                     for X in (seg, 2 * seg, seg + 5, 17, 16, 3 * seg - 1, size - 9):
                         for shape in ("stop-then-reread", "read-then-reread", "concurrent-2", "concurrent-3"):
                             node = fresh_node(c, cap)
@@ -790,7 +831,13 @@ def run(ctx):
     import common
     common.setup_impl_path()
     import grid  # noqa: F401
+    import os
+    # fixed corpus first (independent of VERIF_SEED): cancel of one of several readers waiting for the same segment
+    # (seeded C04-a), pause/resume from outside write() with the segment arriving during the pause (C04-b), stopped /
+    # repeated / concurrent reads from the end offset of a completed read on one node (C04-c)
     run_resume_corpus(ctx)
+    if os.environ.get("VERIF_CORPUS_ONLY"):
+        return
     run_feed(ctx)
     run_queue(ctx)
     run_ctr(ctx)
